@@ -360,6 +360,13 @@ func framer(args []string) {
 			s := gen.Cat(j1, a, j2, b, gen.Junk(rng, rng.Intn(4), 0))
 			victimize(s, [][2]int{{len(j1), len(j1) + len(a)}, {len(j1) + len(a) + len(j2), len(j1) + len(a) + len(j2) + len(b)}}, n, fmt.Sprintf("junk%d", n))
 		}
+		// the same frame several times in a row, and again after other data: each occurrence is a message
+		for k := 0; k < 2*scale; k++ {
+			f := gen.Frame(rng, gen.TypeClass(rng, k+3), 1+rng.Intn(40), k%3)
+			g := gen.Frame(rng, 1005, 19, 0)
+			s := gen.Cat(f, f, f, gen.Junk(rng, 4, 1), f, g, g)
+			victimize(s, [][2]int{{len(f), 2 * len(f)}, {3*len(f) + 4, 4*len(f) + 4}}, k, "identical frames repeated")
+		}
 		// long runs of other data in front of a frame, lengths around the powers of two (anything that limits or
 		// chunks a run internally has its off-by-one at one of these)
 		if !corrupt {
